@@ -34,6 +34,8 @@ struct E1Config {
     size_t silentSuffixStates = 1000000;
     unsigned long long stopAfterViolations = 2000;
     bool ctorStarts = false;             // also check graphs built by the edge-list constructor (small lists)
+    bool rejectedProbe = false;          // at every new state: each call with a vertex index outside the graph; if it is
+                                         // rejected (throws) the whole state oracle must still hold, also after resize(n+1)
     std::set<long> allowedValues;        // MULTI: if non-empty, transitions leading to a multiplicity outside this set are cut
     std::vector<unsigned> bigSizes;      // non-empty: "scaled" mode - start from structured graphs of these sizes
     bool observeEveryTransition = false; // run the state oracle on the result of every transition, not only on new states
@@ -58,7 +60,7 @@ template <class G> class Explorer {
     std::unordered_map<std::string, int> index;
     std::unordered_map<std::string, G> freshCache;
     std::set<std::string> abstractValues;
-    unsigned long long ctorStates = 0, mergeSteps = 0, hiddenVariants = 0, transitions = 0, cutTransitions = 0, clauseEvals = 0, throwingSteps = 0, noopSteps = 0;
+    unsigned long long rejectedProbes = 0, ctorStates = 0, mergeSteps = 0, hiddenVariants = 0, transitions = 0, cutTransitions = 0, clauseEvals = 0, throwingSteps = 0, noopSteps = 0;
     // hooks for property-specific checks evaluated on every NEW state / every transition
     std::function<void(const G &, const Model &, ClauseSink &)> extraStateCheck;
     std::function<void(const G &before, const Model &mBefore, const Op &, const G &after, const Model &mAfter, ClauseSink &)> extraStepCheck;
@@ -218,6 +220,61 @@ template <class G> class Explorer {
         if (extraStateCheck) extraStateCheck(g2, m2, sink);
     }
 
+    // Calls of the property's own alphabet with a vertex index outside the graph.
+    std::vector<Op> rejectedMenu(unsigned n) const {
+        std::vector<Op> ops;
+        auto has = [&](OpKind k) { return cfg.kinds.count(k) != 0; };
+        auto push = [&](OpKind k, unsigned i, unsigned j, long v, bool f) { Op o; o.k = k; o.i = i; o.j = j; o.v = v; o.force = f; ops.push_back(o); };
+        std::vector<std::pair<unsigned, unsigned>> bad = {{n, n}};
+        if (n > 0) { bad.push_back({0, n}); bad.push_back({n, 0}); bad.push_back({n - 1, n + 1}); }
+        long av = cfg.addValues.empty() ? 1 : cfg.addValues.back(), sv = cfg.setValues.empty() ? av : cfg.setValues.back();
+        for (auto &b : bad) {
+            if (has(ADD)) { push(ADD, b.first, b.second, av, false); push(ADD, b.first, b.second, av, true); }
+            if (has(ADD_DEFAULT)) push(ADD_DEFAULT, b.first, b.second, 0, false);
+            if (has(ADD_RECIP)) push(ADD_RECIP, b.first, b.second, av, false);
+            if (has(REMOVE)) push(REMOVE, b.first, b.second, 0, false);
+            if (has(REMOVE_MULTI)) push(REMOVE_MULTI, b.first, b.second, 1, false);
+            if (has(SET_VALUE)) push(SET_VALUE, b.first, b.second, sv, false);
+        }
+        if (has(REMOVE_VERTEX)) push(REMOVE_VERTEX, n, 0, 0, false);
+        return ops;
+    }
+    // A call that the library REJECTS (it throws) did not happen: every clause of the property still holds for the
+    // unchanged value, and still does once the graph has grown so that the offending index exists.  Whether the
+    // call must be rejected, and with which exception, is C07's business and is not judged here.
+    void probeRejected(const G &g, const Model &m, unsigned start, const std::vector<Op> &h, const Op *onlyOp = nullptr, std::vector<std::pair<std::string, std::string>> *out = nullptr) {
+        for (const Op &op : rejectedMenu(m.n)) {
+            if (onlyOp && op.encode() != onlyOp->encode()) continue;
+            breadcrumb(cfg.name + " rejected-call probe " + op.encode() + " on " + m.str());
+            G c(g);
+            Outcome real = applyReal(c, op);
+            if (real == OK) continue;
+            ++rejectedProbes;
+            ClauseSink sink;
+            sink.property = prop;
+            newStateClauses(c, m, sink);
+            if (sink.wants("eq.fresh") && (!(c == g) || !(g == c))) sink.fail("eq.fresh", "the graph no longer compares equal to a copy taken before the rejected call");
+            std::string what = "after [" + historyText(h) + "] on a graph constructed with " + std::to_string(start) + " vertices, then the REJECTED call " + opText<G>(op) + " (" + outcomeName(real) + ")";
+            std::vector<std::pair<std::string, std::string>> fails;
+            for (auto &f : sink.failures) fails.emplace_back(f.first, what + ": " + f.second);
+            if (fails.empty()) {
+                Op rz; rz.k = RESIZE; rz.i = m.n + 2;
+                Model m2(m);
+                applyModel(m2, rz, T::fam);
+                G before(c);
+                applyReal(c, rz);
+                ClauseSink sink2;
+                sink2.property = prop;
+                newStateClauses(c, m2, sink2);
+                for (auto &f : sink2.failures) fails.emplace_back(f.first, what + " and resize(" + std::to_string(m.n + 2) + "): " + f.second);
+            }
+            clauseEvals += sink.evaluated;
+            if (out) { for (auto &f : fails) out->push_back(f); continue; }
+            for (auto &f : fails)
+                rep.violation(prop + ":" + cfg.name + ":" + f.first + ":after-rejected-" + opKindName(op.k), f.second, replayArgs(start, h) + " --rejected " + op.encode());
+        }
+    }
+
     // Re-execute a history on a fresh object and return the failing clauses of its last step / state.
     std::vector<std::pair<std::string, std::string>> reproduce(unsigned start, const std::vector<Op> &h, bool verbose = false) {
         G g(start);
@@ -292,6 +349,7 @@ template <class G> class Explorer {
             abstractValues.insert(m.str());
             frontier.push_back((int)recs.size() - 1);
             report(sink, n0, {});
+            if (cfg.rejectedProbe) probeRejected(g, m, n0, {});
         }
         // graphs built by the edge-list constructor (every list of <= 2 entries over 2 vertices and the value
         // alphabet, both orientations, repeats included): checked with the whole state oracle, not expanded
@@ -453,6 +511,11 @@ template <class G> class Explorer {
                     auto h = historyOf(s, &start);
                     h.push_back(op);
                     report(sink, start, h);
+                } else if (isNew && cfg.rejectedProbe) {
+                    unsigned start;
+                    auto h = historyOf(s, &start);
+                    h.push_back(op);
+                    probeRejected(g2, m2, start, h);
                 }
                 if (!isNew && cfg.mergeDifferential && it->second != s) {
                     // Differential oracle for merged states: the object reached by THIS history and the
@@ -664,6 +727,7 @@ template <class G> class Explorer {
         rep.count("rejected_steps", (long long)throwingSteps);
         rep.count("hidden_state_variants", (long long)hiddenVariants);
         rep.count("constructor_built_states", (long long)ctorStates);
+        rep.count("rejected_call_probes", (long long)rejectedProbes);
         rep.count("noop_steps", (long long)noopSteps);
         rep.count("pairs_compared", (long long)pairs);
         rep.count("stateless_histories", (long long)histories);
@@ -722,6 +786,30 @@ template <class G> int replayHistory(const E1Config &cfg, const std::string &pro
         printf("constructed from [%s]: key %s, model %s\n", enc.c_str(), keyOf(g, true).c_str(), m.str().c_str());
         for (auto &f : sink.failures) printf("REPRODUCED clause %s: %s\n", f.first.c_str(), f.second.c_str());
         return sink.failures.empty() ? 0 : 1;
+    }
+    if (args.has("rejected")) {
+        Op bad = Op::decode(args.get("rejected", ""));
+        int verdict[2];
+        for (int round = 0; round < 2; ++round) {
+            G g(start);
+            Model m;
+            m.directed = Tr<G>::directed;
+            m.n = start;
+            { ClauseSink warm; warm.property = prop; ex.newStateClauses(g, m, warm); }
+            for (auto &op : h) {
+                applyModel(m, op, Tr<G>::fam);
+                Outcome oc = applyReal(g, op);
+                if (round == 0) printf("  step: %s -> %s\n", opText<G>(op).c_str(), outcomeName(oc));
+                ClauseSink warm; warm.property = prop; ex.newStateClauses(g, m, warm);
+            }
+            std::vector<std::pair<std::string, std::string>> fails;
+            ex.probeRejected(g, m, start, h, &bad, &fails);
+            if (round == 0)
+                for (auto &f : fails) printf("REPRODUCED clause %s: %s\n", f.first.c_str(), f.second.c_str());
+            verdict[round] = fails.empty() ? 0 : 1;
+        }
+        if (verdict[0] != verdict[1]) { printf("REPLAY DIVERGED\n"); return 2; }
+        return verdict[0];
     }
     if (args.has("silent") || args.has("observed-prefix")) {
         // observers are called after each of the first `observed-prefix` steps only, then at the end
